@@ -93,14 +93,41 @@ class _Fam:
 def _iface_arrays(f: Func):
     """names initialised as [<ones>] + [None] * (d-1) + [<ones>]; value: number of axes"""
     out = {}
+    single = {}
+    cnt = {}
+    for n in ast.walk(f.node):
+        if isinstance(n, ast.Name) and isinstance(n.ctx, ast.Store):
+            cnt[n.id] = cnt.get(n.id, 0) + 1
+    for n in ast.walk(f.node):
+        if isinstance(n, ast.Assign) and len(n.targets) == 1 and isinstance(n.targets[0], ast.Name) and cnt.get(n.targets[0].id) == 1:
+            single[n.targets[0].id] = n.value
+
+    def const_int(e, depth=0):
+        if isinstance(e, ast.Constant) and isinstance(e.value, int) and not isinstance(e.value, bool):
+            return e.value
+        if isinstance(e, ast.Name) and e.id in single and depth < 3:
+            return const_int(single[e.id], depth + 1)
+        return None
+
+    def naxes(e, depth=0):
+        """number of axes of a shape expression: a literal tuple / list, (1,) * k, or a local bound once to one of those"""
+        if isinstance(e, (ast.Tuple, ast.List)):
+            return len(e.elts)
+        if isinstance(e, ast.Name) and e.id in single and depth < 3:
+            return naxes(single[e.id], depth + 1)
+        if isinstance(e, ast.BinOp) and isinstance(e.op, ast.Mult):
+            for a, b in ((e.left, e.right), (e.right, e.left)):
+                if isinstance(a, (ast.Tuple, ast.List)) and const_int(b) is not None:
+                    return len(a.elts) * const_int(b)
+        return None
     for s in f.node.body:
         if isinstance(s, ast.Assign) and len(s.targets) == 1 and isinstance(s.targets[0], ast.Name):
             calls = [c for c in ast.walk(s.value) if isinstance(c, ast.Call) and isinstance(c.func, ast.Attribute) and c.func.attr == "ones"]
             nones = [c for c in ast.walk(s.value) if isinstance(c, ast.Constant) and c.value is None]
             if len(calls) == 2 and nones and isinstance(s.value, ast.BinOp):
-                a0 = calls[0].args[0] if calls[0].args else None
-                if isinstance(a0, (ast.Tuple, ast.List)):
-                    out[s.targets[0].id] = len(a0.elts)
+                k = naxes(calls[0].args[0]) if calls[0].args else None
+                if k is not None:
+                    out[s.targets[0].id] = k
     return out
 
 
@@ -411,7 +438,8 @@ def type_body(model: Model, short: str) -> list[Ob]:
         return [Ob("IFACE-TYPE", f"{short}:IFACE-TYPE:anchor", ERROR, "", short, f"{short} vanished")]
     f = _inline_attr_locals(model.func(short))
     obs = []
-    ifaces = _iface_arrays(f)
+    from ..inline import inlined
+    ifaces = _iface_arrays(inlined(model, model.func(short)))      # interface arrays built by a small helper are read in place
     if len(ifaces) < 4:
         return [Ob("IFACE-TYPE", f"{short}:IFACE-TYPE:ifaces", ERROR, model.where(f), short,
                    f"expected four interface arrays initialised as [ones] + [None]*(d-1) + [ones], found {sorted(ifaces)}")]
